@@ -66,6 +66,16 @@ def nf(o) -> bool:
 
 
 @spec
+def expanded(o, m) -> bool:
+    """C04: the tree contains no call of a macro of table m, to any nesting depth"""
+    if isinstance(o, LoopStatement):
+        return expanded(o._statements, m)
+    if isinstance(o, BlockStatement):
+        return isinstance(o._statements, list) and forall_range(len(o._statements), lambda k: expanded(o._statements[k], m))
+    return not (isinstance(o, GateStatement) and has_key(m, o._gate_def._name))
+
+
+@spec
 def wf_macros(m) -> bool:
     """a macro table: names to Macro objects with list parameters and well-formed bodies"""
     return isinstance(m, dict) and forall_keys(m, lambda k: isinstance(dict_lookup(m, k), Macro) and dict_lookup(m, k)._name == k
@@ -159,6 +169,9 @@ class ReplGate:
                                                     same(dict_lookup(result._parameters, dict_key_at(gate._parameters, j)),
                                                          subst_arg(self, dict_val_at(gate._parameters, j))))))
 
+    def ensures_expanded(self, gate, result):
+        return expanded(result, self.macros)
+
     raises_only = ("JaqalError",)
 
 
@@ -169,6 +182,9 @@ class ReplLoop:
 
     def ensures(self, loop, result):
         return type_is(result, LoopStatement) and wf_stmt(result) and nf(result)
+
+    def ensures_expanded(self, loop, result):
+        return expanded(result, self.macros)
 
     raises_only = ("JaqalError",)
 
@@ -189,7 +205,11 @@ class ReplBlock:
 
     def inv_1(self, block, statements, _k):
         return isinstance(statements, list) and forall_range(len(statements), lambda j: wf_stmt(statements[j]) and nf(statements[j])
+                                                               and expanded(statements[j], self.macros)
                                                                and not same_kind_plain(statements[j], block._parallel))
+
+    def ensures_expanded(self, block, result):
+        return expanded(result, self.macros)
 
     raises_only = ("JaqalError",)
 
@@ -206,6 +226,9 @@ class ExpLoop:
 
     def ensures_normal_form(self, loop, result):
         return wf_stmt(result) and nf(result)
+
+    def ensures_expanded(self, loop, result):
+        return expanded(result, self.macros)
 
     raises_only = ("JaqalError",)
 
@@ -228,7 +251,11 @@ class ExpBlock:
 
     def inv_1(self, block, new_statements, _k):
         return isinstance(new_statements, list) and forall_range(len(new_statements), lambda j: wf_stmt(new_statements[j]) and nf(new_statements[j])
+                                                                   and expanded(new_statements[j], self.macros)
                                                                    and not same_kind_plain(new_statements[j], block._parallel))
+
+    def ensures_expanded(self, block, result):
+        return expanded(result, self.macros)
 
     raises_only = ("JaqalError",)
 
@@ -241,6 +268,9 @@ class ExpGate:
 
     def ensures(self, gate, result):
         return wf_stmt(result) and nf(result)
+
+    def ensures_expanded(self, gate, result):
+        return expanded(result, self.macros)
 
     raises_only = ("JaqalError",)
 
@@ -273,6 +303,9 @@ class ReplaceGate:
     def raises_JaqalError_when(gate, macros):
         return has_key(macros, gate._gate_def._name) and len(gate._parameters) != len(dict_lookup(macros, gate._gate_def._name)._parameters)
 
+    def ensures_expanded(gate, macros, result):
+        return expanded(result, macros)
+
     raises_only = ("JaqalError",)
 
 
@@ -288,4 +321,7 @@ class ReplMacro:
         return isinstance(result, BlockStatement) and wf_stmt(result) and nf(result)
 
     modifies = ("self.parameters",)
+    def ensures_expanded(self, macro, result):
+        return expanded(result, self.macros)
+
     raises_only = ("JaqalError",)
